@@ -125,6 +125,67 @@ func Beat(w int) {
 	}
 }
 
+// memoryGuard: a change that makes the library allocate without bound (an endless loop that appends) would have the
+// process killed by the operating system long before the non-termination limit is reached - report it instead.
+func (c *Ctx) memoryGuard() {
+	memLimit := int64(16 << 10) // MiB
+	if c.Tier == "thorough" {
+		memLimit = 32 << 10
+	}
+	if v, err := strconv.Atoi(os.Getenv("VERIF_MEM_MIB")); err == nil && v > 0 {
+		memLimit = int64(v)
+	}
+	for {
+		time.Sleep(100 * time.Millisecond)
+		if rss := rssMiB(); rss > memLimit {
+			buf := make([]byte, 1<<20)
+			buf = buf[:runtime.Stack(buf, true)]
+			site := "unknown"
+			for _, l := range strings.Split(string(buf), "\n") {
+				if strings.HasPrefix(l, "github.com/insomniacslk/dhcp/") {
+					site = strings.TrimPrefix(l, "github.com/insomniacslk/dhcp/")
+					if i := strings.LastIndexByte(site, '('); i > 0 {
+						site = site[:i]
+					}
+					break
+				}
+			}
+			in := "one of the cases running when the limit was reached"
+			for w := range wslots {
+				if s := &wslots[w]; s.since.Load() != 0 {
+					if d := s.desc.Load(); d != nil {
+						func() {
+							defer func() { recover() }()
+							in = (*d)() + " (or one of the other cases running at that moment)"
+						}()
+						break
+					}
+				}
+			}
+			c.Report(Violation{Fingerprint: "memory-exhaustion|" + site, Order: 0, Scope: "watchdog", Input: in,
+				Observed: fmt.Sprintf("the process holds %d MiB (limit %d MiB; the unchanged library stays far below); innermost library frame of a running goroutine: %s", rss, memLimit, site),
+				Expected: "decoding, encoding and reading a value need memory proportionate to its size",
+				Explain:  "the run ends here with what was checked so far"})
+			c.capped.Store(true)
+			os.Exit(c.Finish())
+		}
+	}
+}
+
+// rssMiB is the resident set size of the process (0 when /proc is not readable).
+func rssMiB() int64 {
+	b, err := os.ReadFile("/proc/self/statm")
+	if err != nil {
+		return 0
+	}
+	f := strings.Fields(string(b))
+	if len(f) < 2 {
+		return 0
+	}
+	pages, _ := strconv.ParseInt(f[1], 10, 64)
+	return pages * int64(os.Getpagesize()) >> 20
+}
+
 func cpuMillis() int64 {
 	var ru syscall.Rusage
 	if syscall.Getrusage(syscall.RUSAGE_SELF, &ru) != nil {
@@ -149,6 +210,7 @@ func (c *Ctx) watchdog() {
 	}
 	limit *= 1000
 	lastCPU := cpuMillis()
+	go c.memoryGuard()
 	for {
 		time.Sleep(time.Second)
 		busy := int64(0)
